@@ -161,7 +161,7 @@ func checkC08(P *Program, r *Result, tier string) {
 	r.Explanation = "On the three skipper implementations (raw-span, stream, template instances): TRUNC (E1: every inspected byte lies inside the span / inside a slice a successful Next/SkipN of that width returned; the raw skipper's reported length stays inside the input), " +
 		"DEPTH (every self-recursive call passes depth−1 and is only reachable with depth ≥ 1; depth 0 returns the DEPTH_LIMIT exception; every external entry passes 64 — a ranking-function argument), " +
 		"NEG32 (every declared size read from the wire is proved to lie in [0, 2^31−1] wherever it is used as count, length or factor), " +
-		"UNKNOWN-TAG (the fixed-size table is non-zero exactly for the grammar's fixed-size tags with the grammar's widths; the dispatch handles exactly {11,12,13,14,15} and its default returns INVALID_DATA)."
+		"ERR-USED (no error of a nested read or skip is dropped or overwritten before it was tested), UNKNOWN-TAG (the fixed-size table is non-zero exactly for the grammar's fixed-size tags with the grammar's widths; the dispatch handles exactly {11,12,13,14,15} and its default returns INVALID_DATA)."
 	raw, stream, tpl := skipperEntries(P, r)
 	if len(r.Fatal) > 0 {
 		return
@@ -213,194 +213,7 @@ func checkC08(P *Program, r *Result, tier string) {
 	}
 
 	// ---------- DEPTH ----------
-	// A recursive skipper = a function of the scope that lies on a call cycle and answers depth 0 with DEPTH_LIMIT.
-	// Its cycle (the strongly connected component in the repository call graph) may contain extracted helpers.
-	callees := func(f *ssa.Function) []*ssa.Function {
-		var out []*ssa.Function
-		for _, c := range callsIn(f) {
-			if cal := c.Common().StaticCallee(); cal != nil && inRepo(cal) && cal.Blocks != nil {
-				out = append(out, cal)
-			}
-		}
-		return out
-	}
-	reach := func(from *ssa.Function) map[*ssa.Function]bool {
-		seen := map[*ssa.Function]bool{}
-		var walk func(f *ssa.Function)
-		walk = func(f *ssa.Function) {
-			for _, g := range callees(f) {
-				if !seen[g] {
-					seen[g] = true
-					walk(g)
-				}
-			}
-		}
-		walk(from)
-		return seen
-	}
-	limitParam := func(fn *ssa.Function) (int, *ssa.BasicBlock) {
-		// the int parameter whose comparison with 0 returns the DEPTH_LIMIT exception
-		for _, b := range fn.Blocks {
-			iff, ok := b.Instrs[len(b.Instrs)-1].(*ssa.If)
-			if !ok {
-				continue
-			}
-			bo, ok := iff.Cond.(*ssa.BinOp)
-			if !ok || (bo.Op != token.EQL && bo.Op != token.LEQ) {
-				continue
-			}
-			if c, ok := bo.Y.(*ssa.Const); !ok || c.Value == nil || c.Int64() != 0 {
-				continue
-			}
-			for i, p := range fn.Params {
-				if bo.X != ssa.Value(p) {
-					continue
-				}
-				tb := b.Succs[0]
-				if ret, ok := tb.Instrs[len(tb.Instrs)-1].(*ssa.Return); ok {
-					if t, ok := exceptionTypeOf(P, ret.Results[len(ret.Results)-1]); ok && t == 6 {
-						return i, b
-					}
-				}
-			}
-		}
-		return -1, nil
-	}
-	recs := 0
-	for _, fn := range scope {
-		fromFn := reach(fn)
-		if !fromFn[fn] {
-			continue // not on a cycle
-		}
-		k, guardBlk := limitParam(fn)
-		if k < 0 {
-			// a helper on some skipper's cycle is handled with that skipper; a recursive function without the limit test is a violation
-			onOther := false
-			for g := range fromFn {
-				if g != fn && reach(g)[fn] {
-					if kk, _ := limitParam(g); kk >= 0 {
-						onOther = true
-					}
-				}
-			}
-			if !onOther {
-				r.add("DEPTH", shortName(fn), "entry", "depth 0 returns the DEPTH_LIMIT protocol exception before anything is parsed", P.pos(fn.Pos()), false, "recursive function without a depth-limit test")
-			}
-			continue
-		}
-		recs++
-		// the cycle and the depth parameter of every member
-		scc := map[*ssa.Function]bool{fn: true}
-		for g := range fromFn {
-			if reach(g)[fn] {
-				scc[g] = true
-			}
-		}
-		dpar := map[*ssa.Function]int{fn: k}
-		for changed := true; changed; {
-			changed = false
-			for f := range scc {
-				if _, has := dpar[f]; has {
-					continue
-				}
-				faF := run.A.fa(f)
-				for _, c := range callsIn(f) {
-					g := c.Common().StaticCallee()
-					gk, known := dpar[g]
-					if !known || !scc[g] {
-						continue
-					}
-					arg := faF.expand(c.Common().Args[gk])
-					for i, p := range f.Params {
-						if isInteger(p.Type()) {
-							if d := arg.sub(faF.expand(p)); d.isConst() {
-								dpar[f] = i
-								changed = true
-							}
-						}
-					}
-				}
-			}
-		}
-		zeroEdges := map[*ssa.Function][]*ssa.Function{}
-		for f := range scc {
-			fk, has := dpar[f]
-			if !has {
-				r.add("DEPTH", shortName(f), "param", "every function on the recursion cycle carries the depth", P.pos(f.Pos()), false, "no parameter of "+f.Name()+" flows into the depth of the next call")
-				continue
-			}
-			faF := run.A.fa(f)
-			par := faF.expand(f.Params[fk])
-			for _, c := range callsIn(f) {
-				g := c.Common().StaticCallee()
-				if !scc[g] {
-					continue
-				}
-				cc := c.(*ssa.Call)
-				arg := faF.expand(c.Common().Args[dpar[g]])
-				d := arg.sub(par)
-				okEdge := d.isConst() && d.C.Sign() <= 0
-				r.add("DEPTH", shortName(f), "call", "a call on the recursion cycle passes its own depth or less", P.pos(instrPos(cc)), okEdge, "argument is "+run.A.linString(arg))
-				if okEdge && d.C.Sign() == 0 {
-					zeroEdges[f] = append(zeroEdges[f], g)
-				}
-				if okEdge && d.C.Sign() < 0 {
-					pos := faF.prove(ineqGE(par, linConst(1)), cc.Block(), rootCtx.with([]*Lin{ineqGE(par, linConst(0))}, nil))
-					r.add("DEPTH", shortName(f), "call", "the depth is decremented only when it is ≥ 1 (rank decreases, stays ≥ 0)", P.pos(instrPos(cc)), pos, "")
-				}
-			}
-		}
-		// every cycle contains a decrement: the calls that pass the depth unchanged form no cycle
-		cyc := false
-		var visit func(f *ssa.Function, stack map[*ssa.Function]bool)
-		visit = func(f *ssa.Function, stack map[*ssa.Function]bool) {
-			if stack[f] {
-				cyc = true
-				return
-			}
-			stack[f] = true
-			for _, g := range zeroEdges[f] {
-				visit(g, stack)
-			}
-			delete(stack, f)
-		}
-		for f := range scc {
-			visit(f, map[*ssa.Function]bool{})
-		}
-		r.add("DEPTH", shortName(fn), "cycle", "every recursion cycle decrements the depth", P.pos(fn.Pos()), !cyc, "")
-		// depth 0 ⇒ DEPTH_LIMIT before any call on the cycle
-		okLimit := true
-		for _, c := range callsIn(fn) {
-			if scc[c.Common().StaticCallee()] && !edgeDominates(guardBlk, guardBlk.Succs[1], c.(*ssa.Call).Block()) {
-				okLimit = false
-			}
-		}
-		r.add("DEPTH", shortName(fn), "entry", "depth 0 returns the DEPTH_LIMIT protocol exception before anything is parsed", P.pos(fn.Pos()), okLimit, "")
-		// external entries pass 64
-		ext := 0
-		for _, caller := range repoFuncs(P) {
-			if scc[caller] {
-				continue
-			}
-			for _, c := range callsIn(caller) {
-				g := c.Common().StaticCallee()
-				if !scc[g] {
-					continue
-				}
-				ext++
-				gk, has := dpar[g]
-				if !has {
-					continue
-				}
-				cst, ok := c.Common().Args[gk].(*ssa.Const)
-				r.add("DEPTH", shortName(caller), "call", "entry into "+g.Name()+" starts with the recursion limit 64", P.pos(instrPos(c.(ssa.Instruction))), ok && cst.Value != nil && cst.Int64() == 64, "")
-			}
-		}
-		if ext == 0 {
-			r.add("DEPTH", shortName(fn), "entry", "recursive skipper has an external entry", P.pos(fn.Pos()), false, "")
-		}
-	}
-	if recs < 5 {
+	if recs := depthRules(P, r, run.A, scope); recs < 5 {
 		r.fatal("expected 5 recursive skipper bodies (raw, stream, 3 template instances), found %d", recs)
 	}
 
@@ -501,6 +314,29 @@ func checkC08(P *Program, r *Result, tier string) {
 	r.Extra["contracts"] = run.contractSummary()
 	r.assume("bufiox.Reader.Next/Peek and SkipDecoderIface.SkipN return exactly n bytes when err == nil (interface contract; the implementations are C02/C04's subject)")
 	r.assume("int is 64 bits; lengths ≤ 2^48; addresses < 2^56")
+	// ---------- ERR-USED: no error of a consuming call is dropped or overwritten unexamined ----------
+	for _, fn := range scope {
+		for _, c := range callsIn(fn) {
+			cc, ok := c.(*ssa.Call)
+			if !ok {
+				continue
+			}
+			sig := cc.Common().Signature()
+			nres := sig.Results().Len()
+			if nres == 0 || !isErrorType(sig.Results().At(nres-1).Type()) {
+				continue
+			}
+			if cal := cc.Common().StaticCallee(); cal != nil && !inRepo(cal) {
+				continue
+			}
+			var ev ssa.Value = cc
+			if nres > 1 {
+				ev = resultValue(cc, nres-1)
+			}
+			used := ev != nil && errExamined(ev, map[ssa.Value]bool{})
+			r.add("ERR-USED", shortName(fn), "call", "the error of "+calleeFullName(cc)+" is examined (tested or returned) before anything else is parsed", P.pos(instrPos(cc)), used, "the error result is dropped or overwritten without being looked at")
+		}
+	}
 	// the decoders that feed the template skipper (shared with C02): exact windows, fragments placed one after the other
 	c02Decoders(P, r)
 }
@@ -742,3 +578,232 @@ func (n *neg32) checkUses(r *Result, fa *FA, v ssa.Value, upper bool, deferLower
 func init() { register("C08", "other", checkC08) }
 
 var _ = strings.Contains
+
+// depthRules: the ranking-function argument for the recursive skippers of scope
+// (shared by C08 and C02). It returns the number of recursive skippers found.
+func depthRules(P *Program, r *Result, A *Analysis, scope []*ssa.Function) int {
+	// ---------- DEPTH ----------
+	// A recursive skipper = a function of the scope that lies on a call cycle and answers depth 0 with DEPTH_LIMIT.
+	// Its cycle (the strongly connected component in the repository call graph) may contain extracted helpers.
+	callees := func(f *ssa.Function) []*ssa.Function {
+		var out []*ssa.Function
+		for _, c := range callsIn(f) {
+			if cal := c.Common().StaticCallee(); cal != nil && inRepo(cal) && cal.Blocks != nil {
+				out = append(out, cal)
+			}
+		}
+		return out
+	}
+	reach := func(from *ssa.Function) map[*ssa.Function]bool {
+		seen := map[*ssa.Function]bool{}
+		var walk func(f *ssa.Function)
+		walk = func(f *ssa.Function) {
+			for _, g := range callees(f) {
+				if !seen[g] {
+					seen[g] = true
+					walk(g)
+				}
+			}
+		}
+		walk(from)
+		return seen
+	}
+	limitParam := func(fn *ssa.Function) (int, *ssa.BasicBlock) {
+		// the int parameter whose comparison with 0 returns the DEPTH_LIMIT exception
+		for _, b := range fn.Blocks {
+			iff, ok := b.Instrs[len(b.Instrs)-1].(*ssa.If)
+			if !ok {
+				continue
+			}
+			bo, ok := iff.Cond.(*ssa.BinOp)
+			if !ok || (bo.Op != token.EQL && bo.Op != token.LEQ) {
+				continue
+			}
+			if c, ok := bo.Y.(*ssa.Const); !ok || c.Value == nil || c.Int64() != 0 {
+				continue
+			}
+			for i, p := range fn.Params {
+				if bo.X != ssa.Value(p) {
+					continue
+				}
+				tb := b.Succs[0]
+				if ret, ok := tb.Instrs[len(tb.Instrs)-1].(*ssa.Return); ok {
+					if t, ok := exceptionTypeOf(P, ret.Results[len(ret.Results)-1]); ok && t == 6 {
+						return i, b
+					}
+				}
+			}
+		}
+		return -1, nil
+	}
+	recs := 0
+	for _, fn := range scope {
+		fromFn := reach(fn)
+		if !fromFn[fn] {
+			continue // not on a cycle
+		}
+		k, guardBlk := limitParam(fn)
+		if k < 0 {
+			// a helper on some skipper's cycle is handled with that skipper; a recursive function without the limit test is a violation
+			onOther := false
+			for g := range fromFn {
+				if g != fn && reach(g)[fn] {
+					if kk, _ := limitParam(g); kk >= 0 {
+						onOther = true
+					}
+				}
+			}
+			if !onOther {
+				r.add("DEPTH", shortName(fn), "entry", "depth 0 returns the DEPTH_LIMIT protocol exception before anything is parsed", P.pos(fn.Pos()), false, "recursive function without a depth-limit test")
+			}
+			continue
+		}
+		recs++
+		// the cycle and the depth parameter of every member
+		scc := map[*ssa.Function]bool{fn: true}
+		for g := range fromFn {
+			if reach(g)[fn] {
+				scc[g] = true
+			}
+		}
+		dpar := map[*ssa.Function]int{fn: k}
+		for changed := true; changed; {
+			changed = false
+			for f := range scc {
+				if _, has := dpar[f]; has {
+					continue
+				}
+				faF := A.fa(f)
+				for _, c := range callsIn(f) {
+					g := c.Common().StaticCallee()
+					gk, known := dpar[g]
+					if !known || !scc[g] {
+						continue
+					}
+					arg := faF.expand(c.Common().Args[gk])
+					for i, p := range f.Params {
+						if isInteger(p.Type()) {
+							if d := arg.sub(faF.expand(p)); d.isConst() {
+								dpar[f] = i
+								changed = true
+							}
+						}
+					}
+				}
+			}
+		}
+		zeroEdges := map[*ssa.Function][]*ssa.Function{}
+		for f := range scc {
+			fk, has := dpar[f]
+			if !has {
+				r.add("DEPTH", shortName(f), "param", "every function on the recursion cycle carries the depth", P.pos(f.Pos()), false, "no parameter of "+f.Name()+" flows into the depth of the next call")
+				continue
+			}
+			faF := A.fa(f)
+			par := faF.expand(f.Params[fk])
+			for _, c := range callsIn(f) {
+				g := c.Common().StaticCallee()
+				if !scc[g] {
+					continue
+				}
+				cc := c.(*ssa.Call)
+				arg := faF.expand(c.Common().Args[dpar[g]])
+				d := arg.sub(par)
+				okEdge := d.isConst() && d.C.Sign() <= 0
+				r.add("DEPTH", shortName(f), "call", "a call on the recursion cycle passes its own depth or less", P.pos(instrPos(cc)), okEdge, "argument is "+A.linString(arg))
+				if okEdge && d.C.Sign() == 0 {
+					zeroEdges[f] = append(zeroEdges[f], g)
+				}
+				if okEdge && d.C.Sign() < 0 {
+					pos := faF.prove(ineqGE(par, linConst(1)), cc.Block(), rootCtx.with([]*Lin{ineqGE(par, linConst(0))}, nil))
+					r.add("DEPTH", shortName(f), "call", "the depth is decremented only when it is ≥ 1 (rank decreases, stays ≥ 0)", P.pos(instrPos(cc)), pos, "")
+				}
+			}
+		}
+		// every cycle contains a decrement: the calls that pass the depth unchanged form no cycle
+		cyc := false
+		var visit func(f *ssa.Function, stack map[*ssa.Function]bool)
+		visit = func(f *ssa.Function, stack map[*ssa.Function]bool) {
+			if stack[f] {
+				cyc = true
+				return
+			}
+			stack[f] = true
+			for _, g := range zeroEdges[f] {
+				visit(g, stack)
+			}
+			delete(stack, f)
+		}
+		for f := range scc {
+			visit(f, map[*ssa.Function]bool{})
+		}
+		r.add("DEPTH", shortName(fn), "cycle", "every recursion cycle decrements the depth", P.pos(fn.Pos()), !cyc, "")
+		// depth 0 ⇒ DEPTH_LIMIT before any call on the cycle
+		okLimit := true
+		for _, c := range callsIn(fn) {
+			if scc[c.Common().StaticCallee()] && !edgeDominates(guardBlk, guardBlk.Succs[1], c.(*ssa.Call).Block()) {
+				okLimit = false
+			}
+		}
+		r.add("DEPTH", shortName(fn), "entry", "depth 0 returns the DEPTH_LIMIT protocol exception before anything is parsed", P.pos(fn.Pos()), okLimit, "")
+		// external entries pass 64
+		ext := 0
+		for _, caller := range repoFuncs(P) {
+			if scc[caller] {
+				continue
+			}
+			for _, c := range callsIn(caller) {
+				g := c.Common().StaticCallee()
+				if !scc[g] {
+					continue
+				}
+				ext++
+				gk, has := dpar[g]
+				if !has {
+					continue
+				}
+				cst, ok := c.Common().Args[gk].(*ssa.Const)
+				r.add("DEPTH", shortName(caller), "call", "entry into "+g.Name()+" starts with the recursion limit 64", P.pos(instrPos(c.(ssa.Instruction))), ok && cst.Value != nil && cst.Int64() == 64, "")
+			}
+		}
+		if ext == 0 {
+			r.add("DEPTH", shortName(fn), "entry", "recursive skipper has an external entry", P.pos(fn.Pos()), false, "")
+		}
+	}
+	return recs
+}
+
+// errExamined: the error value reaches a nil test or a return (through phis).
+func errExamined(v ssa.Value, seen map[ssa.Value]bool) bool {
+	if seen[v] {
+		return false
+	}
+	seen[v] = true
+	refs := v.Referrers()
+	if refs == nil {
+		return false
+	}
+	for _, ref := range *refs {
+		switch x := ref.(type) {
+		case *ssa.BinOp:
+			if isNilConst(x.X) || isNilConst(x.Y) {
+				return true
+			}
+		case *ssa.Return:
+			return true
+		case *ssa.Phi:
+			if errExamined(x, seen) {
+				return true
+			}
+		case *ssa.Call:
+			return true // wrapped / converted by a helper
+		case *ssa.MakeInterface, *ssa.ChangeInterface:
+			if errExamined(x.(ssa.Value), seen) {
+				return true
+			}
+		case *ssa.Store:
+			return true
+		}
+	}
+	return false
+}
